@@ -119,6 +119,37 @@ NOTES = {
     'C19-s4': ("sign decoding table lists only upper-case hex digits", "caught"),
     'C20-s3': ("PV enumerates int(nper) payments", "missed: nper was always whole; added 0.5 and 10.5"),
     'C20-s4': ("XIRR Newton derivative off by a factor (1+rate): large roots do not converge", "caught"),
+    # ---- wave 6b (third seeds C11-C20, three per property) ----
+    'C11-s5': ("patched worksheet reader no longer passes the workbook's epoch (1904 date system)", "missed: every generated workbook used the 1900 system; C11 now repeats the form family with date1904=\"1\""),
+    'C11-s6': ("a formula is recognised by a leading '=' instead of the cell's data type", "missed: no text constant began with '='; forms s-eq / str-eq / inlineStr-eq added"),
+    'C11-s7': ("ignore_hidden implemented by extending the mutable default ignore_sheets in place", "missed: one load per process and no hidden sheets; C11 gained the two-loads family - building it showed that ignore_hidden was a no-op on the tree (fix 6162871)"),
+    'C12-s5': ("XLCell leaves fields that compare equal to their default out of its pickled state (0, \"\", FALSE results)", "caught"),
+    'C12-s6': ("encoded state cached on the model; the evaluator's writes do not invalidate it", "caught"),
+    'C12-s7': ("persist decides gzip/plain on the extension as spelt, construct on the lower-cased one", "missed: files were always m.json / m.json.gz; C12 gained the file-name family (17 spellings, gzip magic checked)"),
+    'C13-s5': ("extract() stops copying a range after MAX_EMPTY consecutive empty cells", "missed: no long ranges; 'gap' variant (G1:G125 with 121 empty cells in the middle)"),
+    'C13-s6': ("parser resolves defined names case-insensitively, extract() looks them up by exact spelling", "missed: names were always spelt as defined; 'name-case' variant"),
+    'C13-s7': ("XLFormula.terms de-duplicated by the sheet-less part of the reference", "missed: no formula named one coordinate on two sheets; 'twin-coord' variant"),
+    'C14-s5': ("formula terms de-duplicated by address without the sheet", "missed: one sheet only; two-sheet family FN(A1:B2,Sheet2!A1:B2), one model per form"),
+    'C14-s6': ("AVERAGE rewritten as SUM / count of numbers", "missed: numeric text and logicals were outside the alphabet; now generated for the stated relations only (MIN<=AVERAGE<=MAX, argument order)"),
+    'C14-s7': ("RangeNode.eval trims trailing blank rows from the range array", "caught"),
+    'C15-s5': ("CHOOSE accepts index 0 (lower bound off by one)", "caught (patch rebased onto fix 0c4727e, which the agent's remark about CHOOSE(0.5,..) had led to)"),
+    'C15-s6': ("criteria operand typing no longer stops at the first cast: numeric operands become dates", "missed: whole operands other than 59/60 survive the double cast; column-frac family (2.5, 0.25, 59, 59.5, 60)"),
+    'C15-s7': ("COUNTIF runs the criterion once per distinct cell text", "missed: a number next to the text spelling it was refused as ambiguous; now judged for ordering criteria with a numeric operand (a text cell is not of the operand's type)"),
+    'C16-s5': ("'^' moved to a new OP_POW built on Number.__pow__", "caught"),
+    'C16-s6': ("FLOOR's sign guard 'aligned' with its own error message", "caught"),
+    'C16-s7': ("EXP written as np.power(np.e, x)", "caught"),
+    'C17-s5': ("tokenizer shortcut for the empty text literal eats a leading doubled quote", "caught"),
+    'C17-s6': ("LOWER implemented with str.casefold()", "missed: the alphabet had no lower-case letter that case folding rewrites; lowerfix family (ss, final sigma, micro sign, long s, ligature)"),
+    'C17-s7': ("REPLACE returns the text unchanged when the position is past its end", "caught"),
+    'C18-s5': ("shared 'leap bug serial' constant: nothing maps to serial 59", "caught"),
+    'C18-s6': ("DateTime.__sub__ takes the difference of the Python datetimes", "missed: day differences across the phantom day were refused; DAYS and '-' are now judged by the serial difference there (DATEDIF/YEARFRAC stay refused)"),
+    'C18-s7': ("US and European 30/360 day counts merged into one helper: February rule leaks into basis 4", "missed: February ends were refused for both 30/360 bases; basis 4 is now judged there (28 is 28)"),
+    'C19-s5': ("'places' validated only when it is truthy", "caught"),
+    'C19-s6': ("boolean check of 'number' moved into the decimal branch", "caught (patch rebased onto fix af74b70)"),
+    'C19-s7': ("places = 10 rejected (half-open range after a constant was introduced)", "caught"),
+    'C20-s5': ("PV: annuity-due factor applied to the whole present value, fv included", "caught"),
+    'C20-s6': ("XIRR result accepted only if |XNPV(result)| < 1e-4 absolute", "missed: amounts never exceeded 1e4; IRR/XIRR cases repeated with flows scaled by 1e6, 1e9, 1e12, 1e-6"),
+    'C20-s7': ("IRR: Newton from guess with a 20-iteration limit", "caught"),
 }
 
 
